@@ -163,13 +163,14 @@ def run_tlc(module, cfg_text, *, workers=None, timeout=1200, env=None, extra=(),
 def parse_printed(out, tag):
     """Extract TLA+ tuples printed with PrintT(<<tag, ...>>) ; returns list of raw strings (bracket matched)."""
     res = []
-    key = '<<"%s"' % tag
+    key = re.compile(r'<<\s*"%s"' % re.escape(tag))
     i = 0
     n = len(out)
     while True:
-        i = out.find(key, i)
-        if i < 0:
+        m = key.search(out, i)
+        if not m:
             break
+        i = m.start()
         depth = 0
         j = i
         instr = False
@@ -436,3 +437,28 @@ def finish(prop, tier_, t0, coverage, violations, known_seen, *, assumptions=())
 def b2s(b):
     """bytes -> list of ints (TLA+ Seq(0..255))."""
     return list(b)
+
+
+# ---------------------------------------------------------------------------
+# process pool (fork): replays are CPU bound and independent
+# ---------------------------------------------------------------------------
+
+_PM_FUNC = None
+
+
+def _pm_call(arg):
+    return _PM_FUNC(arg)
+
+
+def pmap(func, items, nproc=None, chunksize=None):
+    """Map func over items in forked workers (func may be a closure; it is inherited by fork)."""
+    global _PM_FUNC
+    items = list(items)
+    nproc = min(nproc or NCPU, max(1, len(items)))
+    if nproc <= 1 or len(items) < 4 or os.environ.get("VERIF_NOFORK"):
+        return [func(x) for x in items]
+    import multiprocessing as mp
+    _PM_FUNC = func
+    ctx = mp.get_context("fork")
+    with ctx.Pool(nproc) as pool:
+        return pool.map(_pm_call, items, chunksize or max(1, len(items) // (nproc * 8)))
